@@ -458,7 +458,17 @@ def cases_batch(tier):
 def store_frames(n):
     import static_frame as sf
     labs = ['zd', 'za', 'zc', 'zb'][:n]
-    return [sf.Frame(np.arange(2 * (i + 2)).reshape(i + 2, 2) + i, index=tuple('abcdefg'[:i + 2]), columns=('p', 'q'), name=l) for i, l in enumerate(labs)]
+    out = [sf.Frame(np.arange(2 * (i + 2)).reshape(i + 2, 2) + i, index=tuple('abcdefg'[:i + 2]), columns=('p', 'q'), name=l) for i, l in enumerate(labs)]
+    if n >= 2:      # one member needs its OWN reader / writer options: a two-level index (index_depth=2 only for this label)
+        f = out[1]
+        out[1] = sf.Frame(f.values, index=sf.IndexHierarchy.from_labels([('g', k) for k in range(f.shape[0])]), columns=('p', 'q'), name=f.name)
+    return out
+
+
+def store_config(frames, **kw):
+    import static_frame as sf
+    # per-label options differ from the default (index_depth=1): reading a label with another label's / the default options shows
+    return sf.StoreConfigMap({f.name: sf.StoreConfig(index_depth=f.index.depth, **kw) for f in frames}, default=sf.StoreConfig(index_depth=1, **kw))
 
 
 def eval_store(rep, case, tmp):
@@ -475,8 +485,8 @@ def eval_store(rep, case, tmp):
     fp_seq = os.path.join(tmp, f'seq_{case["store"]}_{n}.zip')
     fp_par = os.path.join(tmp, f'par_{case["store"]}_{n}.zip')
     pickle_store = case['store'] == 'StoreZipPickle'
-    cfg_seq = sf.StoreConfig(index_depth=1)
-    cfg_par = sf.StoreConfig(index_depth=1, write_max_workers=w, write_chunksize=c, read_max_workers=w, read_chunksize=c)
+    cfg_seq = store_config(frames)
+    cfg_par = store_config(frames, write_max_workers=w, write_chunksize=c, read_max_workers=w, read_chunksize=c)
     try:
         cls(fp_seq).write(((f.name, f) for f in frames), config=None if pickle_store else cfg_seq)
         cls(fp_par).write(((f.name, f) for f in frames), config=cfg_par)
@@ -498,6 +508,9 @@ def eval_store(rep, case, tmp):
             for l, g, s in zip(order, got, seq):
                 if g.name != l or snapshot(g) != snapshot(s):
                     rep.fail(f'{PID}:store:read_many:frame-under-wrong-label', f'{case["store"]} {route} (workers={w}, chunksize={c}): position of {l!r} holds {g.name!r} / differs from sequential read', rp)
+                    break
+                if g.index.depth != ref[l].index.depth or g.shape != ref[l].shape:
+                    rep.fail(f'{PID}:store:read_many:read-with-another-labels-options', f'{case["store"]} {route} (workers={w}, chunksize={c}): {l!r} came back with index depth {g.index.depth} and shape {g.shape}, written with depth {ref[l].index.depth} and shape {ref[l].shape}', rp)
                     break
                 if pickle_store and snapshot(g) != snapshot(ref[l]):
                     rep.fail(f'{PID}:store:read_many:frame-differs-from-written', f'{case["store"]} {route}: {l!r} differs from the Frame written', rp)
